@@ -115,6 +115,10 @@ pub fn full_menu() -> Vec<Expr> {
     m.push(t(Test::XattrMatch("user.tag".into(), "blue".into())));
     m.push(t(Test::XattrMatch("user.*".into(), "bl*".into())));
     m.push(t(Test::XattrMatch("user.tag".into(), "red".into())));
+    m.push(t(Test::XattrMatch("user.*".into(), "blue".into())));
+    m.push(t(Test::XattrMatch("user.tag".into(), "bl*".into())));
+    m.push(t(Test::XattrMatch("user.tag".into(), "b?ue".into())));
+    m.push(t(Test::XattrMatch("[u]ser.tag".into(), "blue".into())));
     for x in [Test::Empty, Test::Executable, Test::Readable, Test::Writable, Test::True, Test::False] {
         m.push(t(x));
     }
